@@ -7,14 +7,34 @@ correlation id (scope.NewChild), application id, container name and heredoc term
     letters, indices outside the pool rejected, string filled from its last position) over
     pools of 1 .. 91 characters: Shape, PoolReachable; Width = "fixed" (code before fix
     6bd494e: always 6 bits) must violate PoolReachable for the 91 characters of StrongBytes.
+    RandSourceInd.tla (Apalache): the locked source restated with types and an inductive
+    invariant -- IndexInRange for ANY number of calls by three goroutines with the real
+    register length 607 (Init => IndInv, IndInv /\ Next => IndInv'); without the lock guard
+    the invariant must not be inductive.
 (R) every behaviour of layer B (letter stream -> string; accepted / rejected letters, runs of
     rejections up to the word boundary) on the real function, the package's source replaced
     through the verif hook: the string and the number of words drawn; every letter value fed
     to pools of 1 .. 91 characters: every character of the pool must turn up; 16 goroutines
     call the real function on the real source for 2 s (thorough 10 s): no panic, every result
     well formed."""
-import json
+import json, os, shutil, subprocess, tempfile
 import vlib
+
+
+def apalache(ctx, src_text, init, inv, length, name):
+    """run apalache-mc check on a scratch copy; returns 'ok' | 'violation'; anything else is infrastructure"""
+    d = tempfile.mkdtemp(prefix='apa_', dir=ctx.scratch)
+    with open(os.path.join(d, 'RandSourceInd.tla'), 'w') as f:
+        f.write(src_text)
+    p = subprocess.run(['timeout', '900', 'apalache-mc', 'check', '--init=' + init, '--inv=' + inv, '--length=%d' % length,
+                        '--out-dir=' + os.path.join(d, 'out'), 'RandSourceInd.tla'], cwd=d, stdout=subprocess.PIPE, stderr=subprocess.STDOUT, text=True)
+    out = p.stdout
+    shutil.rmtree(d, ignore_errors=True)
+    if 'EXITCODE: OK' in out and 'NoError' in out or ('EXITCODE: OK' in out and 'no error' in out):
+        return 'ok'
+    if 'EXITCODE: ERROR (12)' in out or 'violat' in out:
+        return 'violation'
+    raise vlib.Infra('apalache run "%s" failed: %s' % (name, out[-1500:]))
 
 MANIFEST = dict(technique='extension', text='', note='')
 CFG = ('SPECIFICATION Spec\nCONSTANTS\n  Procs = {%s}\n  Len_ = 3\n  Calls = %d\n  Sync = "%s"\n  Pools = {%s}\n  Ns = {%s}\n  Width = "%s"\n  Emit = %s\n  Layer = "%s"\n'
@@ -30,6 +50,14 @@ def run(ctx):
     ctx.cov['states'] -= rv['distinct']; ctx.cov['transitions'] -= rv['generated']
     if 'IndexInRange' not in rv['violated']:
         raise vlib.Infra('spec self-test failed: the unlocked source keeps its indices in range')
+    # the same layer as an INDUCTIVE invariant (Apalache): any number of calls by three goroutines, the real register length
+    src = open(os.path.join(vlib.SPEC, 'ext', 'RandSourceInd.tla')).read()
+    if apalache(ctx, src, 'Init', 'IndInv', 0, 'Init => IndInv') != 'ok' or apalache(ctx, src, 'IndInit', 'IndInv', 1, 'IndInv inductive') != 'ok':
+        raise vlib.Infra('the inductive invariant of RandSourceInd.tla does not hold on the specification itself')
+    unlocked = src.replace('pc[p] = "idle" /\\ lock = "free" /\\ lock\' = p', 'pc[p] = "idle" /\\ lock\' = p')
+    if unlocked == src or apalache(ctx, unlocked, 'IndInit', 'IndInv', 1, 'unlocked variant') != 'violation':
+        raise vlib.Infra('spec self-test failed: without the lock guard the invariant is still inductive')
+    ctx.cov['replay'].append(dict(what='Apalache: IndInv of RandSourceInd.tla is inductive (3 goroutines, register length 607, any number of calls); not inductive without the lock guard'))
     pools = '1, 2, 10, 62, 64, 65, 91' if q else '1, 2, 3, 4, 10, 26, 36, 62, 64, 65, 91'
     ns = '0, 1, 2, 3, 11' if q else '0, 1, 2, 3, 4, 11, 23'
     r = ctx.tlc_must_pass('ext', 'RandString', 'mc.cfg', workers=8, timeout=3000,
